@@ -564,7 +564,18 @@ func (g *fgen) anyValue() (any, *xnode) {
 func (g *fgen) reflectValue() any {
 	r := g.r
 	one := 1
-	switch r.IntN(18) {
+	switch r.IntN(21) {
+	case 17:
+		// an unsupported TYPE hidden behind an interface inside an ordinary container type: values of the very same Go
+		// types ([]any, map[string]any, rStruct) marshal fine elsewhere in the run
+		g.f("reflect-error")
+		return []any{1, "x", make(chan int)}
+	case 18:
+		g.f("reflect-error")
+		return map[string]any{"ok": true, "fn": func() {}}
+	case 19:
+		g.f("reflect-error")
+		return rStruct{A: 1, B: "b", F: make(chan string)}
 	case 0:
 		g.f("reflect-struct")
 		return rStruct{A: int(g.i64()), B: g.str(), C: []float64{1.5, -2e10}, D: map[string]int{"z": 1, "a": 2}, E: &one, F: []any{1, "x", nil}, G: []byte("bytes\x00"), H: map[string]string{"<": ">"}}
